@@ -73,10 +73,14 @@ class Effects:
                 return set()
             seen.add(k)
             s = self.A.summary(q) if q in self.P.functions else None
-            lp = s.loops.get(t[1]) if s else None
+            lp = (s.loops.raw(t[1]) if hasattr(s.loops, "raw") else s.loops.get(t[1])) if s else None
             if lp is None:
                 return set()
             out = set()
+            for _, vals in getattr(lp, "breaks", ()):       # may-alias: the value at a 'break' may be the value after the loop
+                for n, v in vals:
+                    if n == t[2]:
+                        out |= self.roots(q, v, seen)
             if t[2] in lp.init:
                 out |= self.roots(q, lp.init[t[2]], seen)
             if isinstance(t[2], str) and t[2] in lp.update:
